@@ -387,6 +387,8 @@ func (w *W1) Exchange(u upstream.Upstream, c *Call) {
 		if w.rc.Released(r) {
 			w.rc.Fail("returned_buffer_already_released", "call %d (%s): the returned reply buffer had already been released to the pool", c.Idx, c.QName)
 		}
+		// the caller owns r from now on: nobody else may release it later
+		w.rc.held = append(w.rc.held, heldBuf{r, fmt.Sprintf("call %d (%s)", c.Idx, c.QName)})
 	}
 }
 
